@@ -45,7 +45,7 @@ let run () =
       let self_elem j = let l = !sp in let n = List.length l in let jj = int_of_string j in let jj = if jj < 0 then n + jj else jj in
                         if jj < 0 || jj >= n then None else Some (List.nth l jj) in
       let o = match ws with
-        | ["addself"; i; j] -> (match self_elem j with Some e -> Some (VAddAt (zi i, Some e)) | None -> Some VSize)
+        | ["addself"; _; _] -> Some VSize      (* placeholder: handled below through vaddself / vs_addself *)
         | ["addat"; i; d] -> Some (VAddAt (zi i, data_arg d))
         | ["addfirst"; d] -> Some (VAddFirst (bytes_of_hex d))
         | ["addlast"; d] -> Some (VAddLast (bytes_of_hex d))
@@ -74,11 +74,13 @@ let run () =
       | Some o, Some s ->
         if !dead then (print_endline "M DEAD"; print_endline "S DEAD") else begin
           let noself = (match ws with ["addself"; _; j] -> self_elem j = None | _ -> false) in
-          (match vstep s o with
+          let is_self = (match ws with ["addself"; _; _] -> true | _ -> false) in
+          (match (match ws with ["addself"; i; j] -> vaddself s (zi i) (zi j) | _ -> vstep s o) with
            | Ok (s', ob) -> st := Some s'; print_endline ("M " ^ (if noself then "noself" else obs_str cells_hex ob) ^ " | " ^ dump s')
            | Crash -> dead := true; print_endline "M CRASH"
            | Fuel -> dead := true; print_endline "M FUEL");
-          let (l', sob) = vsstep !sp o in
+          let (l', sob) = (match ws with ["addself"; i; j] -> vs_addself !sp (zi i) (zi j) | _ -> vsstep !sp o) in
+          ignore is_self;
           sp := l';
           print_endline ("S " ^ (if noself then "noself" else obs_str hex_of_bytes sob) ^ " | " ^ sdump l')
         end)
